@@ -310,7 +310,11 @@ func traversalGuards(c *Ctx) {
 				if p, ok := f.m.(*types.Var); ok {
 					// recognised by shape, not by the name of the type: the boundary set maps
 					// identifiers to struct{}, the visited index maps identifiers to nodes
-					switch mapShape(p.Type()) {
+					mt := p.Type()
+					if f.mt != nil {
+						mt = f.mt
+					}
+					switch mapShape(mt) {
 					case "set":
 						boundary = true
 					case "nodes":
@@ -328,7 +332,7 @@ func traversalGuards(c *Ctx) {
 			case *ast.IfStmt:
 				if as, ok := s.Init.(*ast.AssignStmt); ok && len(as.Rhs) == 1 {
 					if ix, isIx := as.Rhs[0].(*ast.IndexExpr); isIx {
-						if o, isVar := baseObj(d, ix.X).(*types.Var); isVar && mapShape(o.Type()) == "set" {
+						if t := d.pkg.TypesInfo.TypeOf(ix.X); t != nil && mapShape(t) == "set" {
 							testPos = s.Pos()
 						}
 					}
@@ -336,7 +340,7 @@ func traversalGuards(c *Ctx) {
 			case *ast.AssignStmt:
 				for _, l := range s.Lhs {
 					if ix, ok := l.(*ast.IndexExpr); ok {
-						if o, isVar := baseObj(d, ix.X).(*types.Var); isVar && mapShape(o.Type()) == "nodes" {
+						if t := d.pkg.TypesInfo.TypeOf(ix.X); t != nil && mapShape(t) == "nodes" {
 							insPos = s.Pos()
 						}
 					}
